@@ -1456,6 +1456,16 @@ func (s *Netceptor) handleRoutingUpdate(ri *routingUpdate, recvConn string) {
 		// Our peer is still trying to initialize
 		return
 	}
+	for node, cost := range ri.Connections {
+		if cost <= 0.0 {
+			// Link costs are positive by configuration; a non-positive cost would make the
+			// routing table calculation loop forever around a negative cycle.
+			s.Logger.SanitizedWarning("Ignoring routing update %s from %s with non-positive cost %f to %s\n",
+				ri.UpdateID, ri.NodeID, cost, node)
+
+			return
+		}
+	}
 	if ri.NodeID == s.nodeID {
 		if ri.UpdateEpoch == s.epoch {
 			return
